@@ -144,6 +144,51 @@ pub fn run(desc: &Value, ctx: &Ctx) -> CaseOut {
                 Err(e) => out.inconclusive(format!("creation failed (C01/C02's concern): {e}")),
                 Ok(created) => {
                     let views = decode_files(&created.files);
+                    // the reader's own listing of each produced file (tools::open_pack -> ContainerPack) names the same packs,
+                    // with the same sizes, as the independent decoder finds in it
+                    for (p, v) in &views {
+                        let listing = util::catch(|| -> Result<Vec<([u8; 16], u64)>, String> {
+                            let cp = jubako::tools::open_pack(p).map_err(|e| format!("open_pack: {e}"))?;
+                            let n = cp.pack_count().into_u16();
+                            let mut l = vec![];
+                            for i in 0..n {
+                                let u = cp.get_pack_uuid(jubako::PackId::from(i));
+                                let by_idx = cp.get_pack_reader_from_idx(jubako::PackId::from(i)).ok_or(format!("no reader for pack index {i}"))?;
+                                let by_uuid = cp.get_pack_reader(&u).ok_or(format!("no reader for uuid {u}"))?;
+                                // what the reader handed out opens as a pack with that uuid; its kind comes from the decoder
+                                let kind = v.packs.iter().find(|pk| pk.hdr.uuid == *u.as_bytes()).map(|pk| pk.hdr.kind).unwrap_or(0);
+                                let open = |r: jubako::Reader| -> Result<(uuid::Uuid, u64), String> {
+                                    use jubako::Pack as _;
+                                    Ok(match kind {
+                                        b'm' => { let p = jubako::reader::ManifestPack::new(r).map_err(|e| e.to_string())?; (p.uuid(), p.size().into_u64()) }
+                                        b'd' => { let p = jubako::reader::DirectoryPack::new(r).map_err(|e| e.to_string())?; (p.uuid(), p.size().into_u64()) }
+                                        b'c' => { let p = jubako::reader::ContentPack::new(r).map_err(|e| e.to_string())?; (p.uuid(), p.size().into_u64()) }
+                                        _ => return Err(format!("pack index {i}: uuid {u} is not a pack the independent decoder found")),
+                                    })
+                                };
+                                let a = open(by_idx)?;
+                                let b = open(by_uuid)?;
+                                if a != b || a.0 != u {
+                                    return Err(format!("pack index {i}: listed uuid {u}, opened by index {:?}, by uuid {:?}", a, b));
+                                }
+                                l.push((*u.as_bytes(), a.1));
+                            }
+                            if cp.iter().count() != n as usize {
+                                return Err(format!("iter() yields {} packs, pack_count() says {n}", cp.iter().count()));
+                            }
+                            l.sort();
+                            Ok(l)
+                        });
+                        let mut want: Vec<([u8; 16], u64)> = v.packs.iter().map(|pk| (pk.hdr.uuid, pk.hdr.pack_size)).collect();
+                        want.sort();
+                        out.obs.inc("container_listings_compared");
+                        match listing {
+                            Ok(Ok(l)) if l == want => {}
+                            Ok(Ok(l)) => out.violate(json!({"kind": "container-listing", "profile": profile()}), format!("C14: {}: the reader lists {} packs {:?}, the independent decoder finds {} {:?}", p.file_name().unwrap().to_string_lossy(), l.len(), l.iter().map(|x| x.1).collect::<Vec<_>>(), want.len(), want.iter().map(|x| x.1).collect::<Vec<_>>()), json!({})),
+                            Ok(Err(e)) => out.violate(json!({"kind": "container-listing", "message": util::normalize_msg(&e), "profile": profile()}), format!("C14: {}: listing the packs of a freshly written file failed: {e}", p.file_name().unwrap().to_string_lossy()), json!({})),
+                            Err(pn) => out.violate_panic("C14", "container-listing", &how, &pn),
+                        }
+                    }
                     for d in compare_free(&cc, created.loose, &views) {
                         out.violate(json!({"kind": "decoded-free-data", "profile": profile()}), format!("C14: independent decoder: {d}"), json!({}));
                     }
